@@ -17,13 +17,18 @@ SEP = "\x1f"       # item boundary symbol of the list-level model
 
 
 def known_factors(prop, rule):
-    return [k["key"].split("factor:", 1)[1] for k in load_known()
+    return [unkey(k["key"]) for k in load_known()
             if k.get("status") == "known" and k["property"] == prop
             and k["rule"] == rule and k["key"].startswith("factor:")]
 
 
 def fkey(f):
-    return "factor:" + f
+    """Keys are printable: the factor in unicode_escape form."""
+    return "factor:" + f.encode("unicode_escape").decode("ascii")
+
+
+def unkey(k):
+    return k.split("factor:", 1)[1].encode("ascii").decode("unicode_escape")
 
 
 def decide_equiv(ctx, rule, A, B, what, loc, n_other=1, extra=""):
@@ -211,6 +216,22 @@ def run(ctx):
         splitter = ex.args[0].value
         from ..textpath import stages_of
         reader_stages = stages_of(m, fr_i, ex.func.value, fr_i.params[0])
+    elif isinstance(ex, ast.ListComp) and len(ex.generators) == 1 \
+            and isinstance(ex.elt, ast.Name) \
+            and isinstance(ex.generators[0].target, ast.Name) \
+            and ex.elt.id == ex.generators[0].target.id \
+            and isinstance(ex.generators[0].iter, ast.Call) \
+            and isinstance(ex.generators[0].iter.func, ast.Attribute) \
+            and ex.generators[0].iter.func.attr == "split":
+        # [c for c in <decoded>.split(sep) if ...]: same pipeline, possibly filtered
+        it = ex.generators[0].iter
+        splitter = it.args[0].value if it.args and isinstance(it.args[0], ast.Constant) else None
+        from ..textpath import stages_of
+        reader_stages = stages_of(m, fr_i, it.func.value, fr_i.params[0])
+        ctx.check(not ex.generators[0].ifs, "C07/FST-LIST", "every split item kept",
+                  f"the reader filters the split items (`{dump(ex.generators[0].ifs[0]) if ex.generators[0].ifs else ''}`): "
+                  f"items that decode to a false value (the empty string) are "
+                  f"dropped", fr_i.loc(rets[0]), witness=["first", "", "last"])
     elif isinstance(ex, (ast.ListComp,)):
         # repaired form: [unescape(x) for x in <split of raw text>]
         split_first = True
